@@ -438,5 +438,32 @@ pub fn run(ctx: &Ctx) -> Vec<Eng> {
         });
     }
     e4.bounds.push_str(&format!("; plus long runs: every primitive word of length <= 2 repeated to 255..257 and 511..513 events followed by one event of each kind ({} histories x 3 initial kinds)", long_count(8, 2, &LONG_LENS)));
-    vec![e1, e2, e3, e4]
+    let grid = ratio_grid(if ctx.thorough { 32 } else { 16 }, 6);
+    let mut e5 = Eng::new(
+        "c11-ratio-sweeps",
+        "8-sample histories whose consecutive sampling intervals alternate between d0 and d0*r (d0 in {7 ms, 0.5 s, 37 s}; pattern d0,d0,d0r,d0r,d0,d0r,d0,d0 and its inverse) for every ratio of a dense grid (2^(1/16) (thorough 2^(1/32)) steps over 2^-6..2^6 plus 1 +- 2^-k, k = 3..20); 3 command kinds; staged reference with forward-error bound",
+        &format!("{} ratios x 6 sweeps x 3 kinds", grid.len()),
+    );
+    {
+        let pat_a: [i32; 8] = [0, 0, 1, 1, 0, 1, 0, 0];
+        let mut cases: Vec<(usize, f64)> = Vec::new();
+        for &r in &grid {
+            for k in 0..6 {
+                cases.push((k, r));
+            }
+        }
+        for init in inits {
+            par_cases(&mut e5, &cases, budget, |&(k, r), e| {
+                e.executions += 1;
+                e.states += 1;
+                e.max_depth = e.max_depth.max(8);
+                let d0 = [7_000_000i64, S / 2, 37 * S][k % 3] as f64;
+                let inv = k >= 3;
+                let h: Vec<Ev> = (0..8).map(|i| Ev::P((d0 * if (pat_a[i] == 1) != inv { r } else { 1.0 }).round().max(1.0) as i64, i % 2)).collect();
+                e.sample(|| format!("init {:?} ratio {:.5} [{}]", init, r, show(&h)));
+                e.transitions += check_history(init, false, &h, e, false);
+            });
+        }
+    }
+    vec![e1, e2, e3, e4, e5]
 }
